@@ -84,6 +84,9 @@ def dim(e: ast.expr, env: Dict[str, str]) -> str:
             return f"ERR:{norm(e)}: a character count of the text is used where octets of its encoded form are counted"
         return "L"
     if isinstance(e, ast.BoolOp):
+        errs = [x for x in (dim(v, env) for v in e.values) if x.startswith("ERR")]
+        if errs:
+            return errs[0]
         ds = {dim(v, env) for v in e.values} - {"C"}
         return ds.pop() if len(ds) == 1 else ("C" if not ds else "?")
     if isinstance(e, ast.BinOp) and isinstance(e.op, (ast.Add, ast.Sub)):
@@ -109,8 +112,23 @@ def dim(e: ast.expr, env: Dict[str, str]) -> str:
             return f"ERR:{norm(e)}: an absolute offset is subtracted from a relative length"
         return "L" if "L" in (a, b) else "C"
     if isinstance(e, ast.IfExp):
-        ds = {dim(e.body, env), dim(e.orelse, env)} - {"C"}
+        both = [dim(e.body, env), dim(e.orelse, env)]
+        errs = [x for x in both if x.startswith("ERR")]
+        if errs:
+            return errs[0]
+        ds = set(both) - {"C"}
         return ds.pop() if len(ds) == 1 else ("C" if not ds else "?")
+    if isinstance(e, ast.Call) and isinstance(e.func, ast.Name) and e.func.id in ("min", "max") and e.args and not e.keywords:
+        ds_ = [dim(x, env) for x in e.args]
+        errs = [x for x in ds_ if x.startswith("ERR")]
+        if errs:
+            return errs[0]
+        ds = set(ds_) - {"C"}
+        if len(ds) <= 1:
+            return ds.pop() if ds else "C"
+        if "?" in ds:
+            return "?"
+        return f"ERR:{norm(e)}: min/max of a position and an extent"
     return "?"
 
 
